@@ -148,7 +148,7 @@ def defined(st, f):
     return len(kids) >= 2 and kids == set(range(len(kids)))
 
 
-def analyse(ctx, prog, chk):
+def analyse(ctx, prog, chk, field_re=None, rule="HIST-FREE"):
     n = 0
     callers = {}
     for fn in prog.all:
@@ -210,24 +210,26 @@ def analyse(ctx, prog, chk):
             if st is None or st is engines.UNIVERSE:
                 continue
             for f, how in selfs:
+                if field_re is not None and not field_re.search(f[0]):
+                    continue
                 obj = "%s%s" % (f[0], "".join((".%s" % x[1]) if (isinstance(x, tuple) and x and x[0] == "f") else "[%s]" % engines.fmt_key(fn, x) for x in f[1]))
                 if (obj, nd.line()) in seen:
                     continue
                 seen.add((obj, nd.line()))
                 n += 1
                 if f[0] in ACCUMULATORS:
-                    chk.ok("HIST-FREE", fn, obj, "listed accumulator: " + ACCUMULATORS[f[0]], line=nd.line())
+                    chk.ok(rule, fn, obj, "listed accumulator: " + ACCUMULATORS[f[0]], line=nd.line())
                 elif defined(st, f):
-                    chk.ok("HIST-FREE", fn, obj, "->%s is assigned from other data earlier in the call on every path to this update" % f[0], line=nd.line())
+                    chk.ok(rule, fn, obj, "->%s is assigned from other data earlier in the call on every path to this update" % f[0], line=nd.line())
                 elif defined_before_calls(fn, f):
-                    chk.ok("HIST-FREE", fn, obj, "->%s is assigned before every call of this static helper" % f[0], line=nd.line())
+                    chk.ok(rule, fn, obj, "->%s is assigned before every call of this static helper" % f[0], line=nd.line())
                 elif (fn.name.split("__")[-1], f[0]) in HIST_OK:
                     used_ok.add((fn.name.split("__")[-1], f[0]))
-                    chk.ok("HIST-FREE", fn, obj, "reviewed exception: " + HIST_OK[(fn.name.split("__")[-1], f[0])], line=nd.line())
+                    chk.ok(rule, fn, obj, "reviewed exception: " + HIST_OK[(fn.name.split("__")[-1], f[0])], line=nd.line())
                 else:
-                    chk.fail("HIST-FREE", fn, obj, "the context field ->%s is updated from its own old value (%s) on a path on which this call has not assigned it before: "
+                    chk.fail(rule, fn, obj, "the context field ->%s is updated from its own old value (%s) on a path on which this call has not assigned it before: "
                              "what the call leaves in the context depends on what an earlier call left there" % (f[0], how), line=nd.line())
-    if prog.library is None:
+    if prog.library is None and field_re is None:
         for k in HIST_OK:
             if k not in used_ok and prog.get(k[0]) is not None:
                 raise AnalysisBroken("HIST-FREE: the reviewed exception %s/%s no longer matches a self-update; remove it" % k)
